@@ -166,4 +166,25 @@ example :
     ((Obs.run (Obs.init C07.t0) C07.liveOps).repo.getNext.map (·.id)) = some "t1" := by
   decide
 
+/-! ### 6. outside the property's quantifier: a core-level error AFTER effect on a USER mutation -/
+
+/-- What `repository.Repository.AddTask` does when the CORE repository stores the task and then reports an error:
+the wrapper returns the error and does not call its timer hook (`if err != nil { return err }`). C07 quantifies over
+mutations that complete and over `GetNext` faults during re-arming, not over this; the scheduler-side instance of the
+same wrapper behaviour was defect D21 (repaired in the scheduler, DESIGN 15.5). -/
+def C07.coreOnlyAdd (o : Obs) (id : String) (p : Param) : Obs :=
+  { o with repo := (Repo.step {} o.repo o.clock.now (.add id p)).1 }
+
+/-- Machine-checked statement of that limit: timer started on an empty repository; an `AddTask` whose core call
+takes effect but is reported as failed leaves a scheduled task with the timer neither armed nor pending and no
+timer error recorded — `neverLate` is false there, and stays false until another mutation or a restart. -/
+theorem C07_core_after_effect_user_witness :
+    let o := C07.coreOnlyAdd (Obs.run (Obs.init C07.t0) [(.start, none)]) "t1"
+      { workId := some "w", scheduledAt := some C07.at5 }
+    o.neverLate = false ∧ o.clock.armed = none ∧ o.clock.pending = false ∧
+    o.hook.started = true ∧ o.hook.lastErr = none ∧ (o.repo.getNext.map (·.id)) = some "t1" ∧
+    -- any later mutation through the wrapper heals it
+    ((o.step (.add "t2" { workId := some "w", scheduledAt := some (C07.at5 + 1000000000) }) none).1.neverLate = true) := by
+  decide
+
 end Gk
